@@ -111,6 +111,9 @@ Model(r) ==     \* [f |-> new forest, ok |-> the logged result is the one layer 
                           /\ IF FSub(f0, hv) = <<>> \/ KindOf(f0, hv) = "A" THEN r.res.seq = [i \in 1..Len(s) |-> s[i].v]
                              ELSE {<<r.res.seq[2 * i - 1], r.res.seq[2 * i]>> : i \in 1..(Len(s) \div 2)} =
                                   {<<s[2 * i - 1].v, s[2 * i].v>> : i \in 1..(Len(s) \div 2)}]
+    [] r.ev = "NRej" ->      \* C18: out-of-range index / absent key: the named error with the caller-mistake category, nothing changes
+         [f |-> f0, ok |-> IF KindOf(f0, hv) = "A" THEN r.res.class = "IndexOutOfBounds" /\ r.res.cat = "user"
+                           ELSE r.res.class = "KeyNotFound" /\ r.res.cat = "user"]
     [] OTHER -> [f |-> f0, ok |-> FALSE]
 
 Next ==
@@ -151,6 +154,14 @@ OtherRootsUntouched ==
          \E j \in 1..Len(Cur.roots) : Cur.roots[j].rid = prev.roots[i].rid /\ Cur.roots[j].fsum = prev.roots[i].fsum
 \* C11: a detached container kept by the caller is an independently stored value
 RootsStandalone == l > 1 => \A i \in 1..Len(Cur.roots) : ~Cur.roots[i].F[1].inl /\ Cur.roots[i].F[1].root
+\* C18: a rejected request leaves the container, its ancestors, every other root and the pending write set exactly as they were
+NoTraceOfRejected == (l > 2 /\ Cur.ev = "NRej" /\ Trace[l - 2].t = Cur.t) =>
+  LET prev == Trace[l - 2] IN
+  /\ Len(Cur.roots) = Len(prev.roots)
+  /\ \A i \in 1..Len(prev.roots) : Cur.roots[i].rid = prev.roots[i].rid /\ Cur.roots[i].fsum = prev.roots[i].fsum
+  /\ Cur.st.stored = prev.st.stored /\ Cur.st.calls = prev.st.calls
+  \* (a container created by the caller as the value of the request and released after the rejection leaves its own entry in the write set)
+  /\ (Cur.e.new = "" => Cur.st.deltas = prev.st.deltas /\ Cur.st.dsum = prev.st.dsum)
 \* C09
 NoLeak == l > 1 => Cur.st.stored = Cur.st.reach
 \* C03 / C08 / C15: a slab served from the read cache and not pending in the write set is what the ledger holds under its
